@@ -387,7 +387,10 @@ func validateSubpictureParts(parts subpictureParts, format *DecimalFormat) error
 		}
 	}
 
-	exponents := strings.Count(parts.Picture, string(format.ExponentSeparator))
+	// An exponent separator in the passive text before the first or
+	// after the last active character is an ordinary character (a
+	// picture such as "0 eels" has no exponent).
+	exponents := strings.Count(parts.Active, string(format.ExponentSeparator))
 	if exponents > 1 {
 		return fmt.Errorf("a subpicture cannot contain more than one exponent separator")
 	}
